@@ -7,11 +7,11 @@ import simnet
 def run(chk):
     quick = chk.tier == "quick"
     chk.rule = ("sequential scripts over 3-4 whole networks on the fabric where half of the dials carry an expected identity (right or wrong for the address dialed), plus "
-                "adversary scenarios (an endpoint replaying the expected peer's certificate); dial results, returned identities, 'listed when returned' and both sides' listings "
+                "adversary scenarios (an endpoint replaying the expected peer's certificate) and nodes dialing their own address (monitors only); dial results, returned identities, 'listed when returned' and both sides' listings "
                 "and events are compared with NetModel.v / checked by monitors; distinct = scenario; non-trivial = all")
     if not chk.prepare():
         return
-    w = dict(fault=0.1, restart=0.03, known=0.03, pin=0.6)
+    w = dict(fault=0.1, restart=0.03, known=0.03, pin=0.6, selfdial=0.08)
     recs = simnet.run_netscripts(chk, 30 if quick else 400, [3, 4], lambda r: r.randrange(6, 14), w, "fabric:pinned-dials")
     for rec in recs:
         # a failed pinned dial must leave no trace: neither side lists / announces the other because of it
